@@ -248,18 +248,9 @@ var c18Concurrent = probe.Define("C18", "concurrent", func(t *rapid.T) c18In {
 	return in
 }, func(in c18In) probe.Outcome {
 	shared := append([]byte(nil), in.Shared...)
-	// sequential pre-run: what each program returns when run alone
-	want := make([][]string, len(in.Progs))
-	for i, p := range in.Progs {
-		want[i] = c18Run(p, shared, false)
-		for _, r := range want[i] {
-			if len(r) > 7 && r[:7] == "HARNESS" {
-				return probe.Fail("%s", r)
-			}
-		}
-	}
+	// The concurrent run comes FIRST: state that the library initialises lazily on first use (a memoisation map, a pooled
+	// buffer) is touched concurrently while it is still cold; the sequential reference run follows.
 	old := runtime.GOMAXPROCS(in.Procs)
-	defer runtime.GOMAXPROCS(old)
 	got := make([][]string, len(in.Progs))
 	var wg sync.WaitGroup
 	start := make(chan struct{})
@@ -273,6 +264,17 @@ var c18Concurrent = probe.Define("C18", "concurrent", func(t *rapid.T) c18In {
 	}
 	close(start)
 	wg.Wait()
+	runtime.GOMAXPROCS(old)
+	// what each program returns when run alone
+	want := make([][]string, len(in.Progs))
+	for i, p := range in.Progs {
+		want[i] = c18Run(p, shared, false)
+		for _, r := range want[i] {
+			if len(r) > 7 && r[:7] == "HARNESS" {
+				return probe.Fail("%s", r)
+			}
+		}
+	}
 	for i := range in.Progs {
 		for j := range want[i] {
 			if j >= len(got[i]) || got[i][j] != want[i][j] {
@@ -303,8 +305,45 @@ var c18Concurrent = probe.Define("C18", "concurrent", func(t *rapid.T) c18In {
 	return probe.Outcome{NonTrivial: len(in.Progs) >= 4 && ops >= 3*len(in.Progs)/2 && len(kinds) >= 2, Labels: labels}
 })
 
+// c18Cold is the first burst of the process: every goroutine exercises every operation kind while all of the library's
+// package-level state is still untouched (the registries, string tables, anything initialised on first use).
+func c18Cold() c18In {
+	in := c18In{Procs: 8}
+	msg := model.Message{Header: model.Header{ISPI: 1, RSPI: 2, Major: 2, Exchange: 35, Flags: 8, MsgID: 1}, Payloads: []model.Payload{
+		{Kind: model.KNonce, Data: model.Bytes{1, 2, 3}},
+		{Kind: model.KEAP, EAP: &model.EAP{Code: 1, Identifier: 1, Kind: model.EAka, Sub: 1, Attrs: []model.AkaAttr{{Type: model.AT_RES, Value: model.Bytes{1, 2, 3, 4, 5}}, {Type: model.AT_CHECKCODE, Value: nil}}}},
+		{Kind: model.KNotify, Notify: &model.Notify{Protocol: 1, Type: 16388, Data: model.Bytes{9}}},
+	}}
+	w, _ := ref.EncodeMessage(msg, nil)
+	in.Shared = w
+	for g := 0; g < 8; g++ {
+		s := bridge.SuiteSel{Encr: g % 3, Integ: (g / 3) % 3, Prf: g % 3, DH: g % 2}
+		k := *fuzzKeysFor(s)
+		k.D = bytes.Repeat([]byte{byte(g + 1)}, ref.Prfs[s.Prf].KeyLen)
+		p := c18Prog{Suite: s, Keys: k}
+		e := *msg.Payloads[1].EAP
+		kinds := append([]string(nil), c18OpKinds...)
+		// a different starting point per goroutine so that different operations overlap
+		for i := range kinds {
+			kind := kinds[(i+g)%len(kinds)]
+			op := c18Op{Op: kind, A: 200 + g, B: 130 + g, Bytes: model.Bytes{byte(g), 7}, Msg: msg}
+			if kind == "eap" || kind == "eap-mac" {
+				ee := e
+				op.EAP = &ee
+			}
+			if kind == "decode" {
+				op.Bytes = w
+			}
+			p.Ops = append(p.Ops, op)
+		}
+		in.Progs = append(in.Progs, p)
+	}
+	return in
+}
+
 func TestC18(t *testing.T) {
 	c := probe.NewCtx(t, "C18")
+	c18Concurrent.Eval(c, c18Cold())
 	c.Note("race detector enabled: %v; schedules are sampled by the Go runtime, not enumerated", raceEnabled)
 	c18Concurrent.Run(c, t, c.N(120, 1000))
 }
